@@ -49,7 +49,7 @@ func shapeOf(cases []Case) string {
 }
 
 func writeReplay(v *Violation, cfg checkCfg, b *Built) string {
-	dir := filepath.Join(verifDir(), "replays")
+	dir := filepath.Join(outDir(), "replays")
 	os.MkdirAll(dir, 0o755)
 	rf := ReplayFile{
 		Property: propertyID, Class: v.Class, Signature: v.Sig, Engine: v.Engine, Detail: v.Detail,
